@@ -178,7 +178,7 @@ theorem stepFire_ops {w s t m s'} (hs : stepFire w s t m = some s') : OpsMap s s
 theorem stepTickBegin_ops {s t m s'} (hs : stepTickBegin s t m = some s') : OpsMap s s' := by
   unfold stepTickBegin at hs; ops_crush hs
 theorem stepTime_ops {s t s'} (hs : stepTime s t = some s') : OpsMap s s' := by
-  unfold stepTime at hs; simp only at hs; ops_crush hs
+  unfold stepTime at hs; ops_crush hs
 theorem stepCancel_ops {s s'} (hs : stepCancel s = some s') : OpsMap s s' := by
   unfold stepCancel at hs
   split at hs
